@@ -79,4 +79,13 @@ var props = map[string]*Prop{
 			{Name: "signature-sets", Pkg: "pkg/storage/pebbledb", Test: "TestVerifC08Pairs", Shards: sh(16, 16), TimeoutS: sh(900, 3000)},
 		},
 	},
+	"C06": {
+		Level: "model_checking",
+		Rule: "explicit-state breadth-first search whose transitions call the real PebbleScanner on an in-memory file system: 45-operation alphabet (24 single adds over IDs{A,B} x topology hash{2} x fuzzy hash{2,none} x entropy/tolerance{2, straddling a %08.4f rounding boundary}, 5 batch adds with repeated IDs, deletes incl. a missing ID, false-positive marks, RebuildIndexes, close+reopen, Checkpoint, Compact, threshold/tolerance setters); state = sorted dump of the physical key space + scanner fields + path-derived overwrite/dirty abstraction; after EVERY transition ~60 lookups (by ID, by topology, 9 entropy ranges, candidates/alerts/exact/batch for 5 probe topologies, listing, counts, stats, export) are compared with brute force over a reference map. Non-trivial = distinct state.",
+		Assumptions: []string{"states that differ only in the number (>=1) of false-positive notes are merged", "Pebble itself is trusted; detection.MatchSignature is used by the brute-force side (it is C08's subject)"},
+		Bounds:      map[string]string{"quick": "all histories of <=3 operations", "thorough": "fixpoint of the reachable state space (cap 60000 states, internal deadline)"},
+		Units: []Unit{
+			{Name: "store-bfs", Pkg: "pkg/storage/pebbledb", Test: "TestVerifC06", Shards: sh(1, 1), GoMaxProcs: 16, TimeoutS: sh(900, 3600), DeadlineS: sh(300, 1500)},
+		},
+	},
 }
